@@ -566,8 +566,12 @@ func evalSchemaCase(c schemaCase, o *pbt.Rec) (*verdictBuilder, pbt.Verdict) {
 type queryFeatures struct {
 	nestedAlias          bool
 	varIncludeDeprecated bool
+	anyIncludeDeprecated bool
+	hasVariables         bool
+	defaultOnlyIncDep    bool // includeDeprecated: $v where $v has a default
 	rootTypename         bool
 	rootIntrospection    bool
+	rootTypenameFirst    bool // a root __typename precedes a root introspection field
 	deepRef              bool
 	includeDeprecatedArg map[string]bool // "true" "false" "absent-on-filterable"
 	fragments            bool
@@ -579,6 +583,11 @@ type queryFeatures struct {
 
 func analyseQuery(doc *gast.QueryDocument) queryFeatures {
 	qf := queryFeatures{includeDeprecatedArg: map[string]bool{}}
+	for _, op := range doc.Operations {
+		if len(op.VariableDefinitions) > 0 {
+			qf.hasVariables = true
+		}
+	}
 	if len(doc.Fragments) > 0 {
 		qf.fragments = true
 	}
@@ -596,6 +605,9 @@ func analyseQuery(doc *gast.QueryDocument) queryFeatures {
 					case "__typename":
 						qf.rootTypename = true
 					case "__schema", "__type":
+						if qf.rootTypename {
+							qf.rootTypenameFirst = true
+						}
 						qf.rootIntrospection = true
 						if a := x.Arguments.ForName("name"); a != nil && a.Value.Kind == gast.Variable {
 							qf.typeByVariable = true
@@ -612,9 +624,15 @@ func analyseQuery(doc *gast.QueryDocument) queryFeatures {
 				}
 				seen[x.Name] = true
 				if a := x.Arguments.ForName("includeDeprecated"); a != nil {
+					qf.anyIncludeDeprecated = true
 					switch a.Value.Kind {
 					case gast.Variable:
 						qf.varIncludeDeprecated = true
+						for _, op := range doc.Operations {
+							if vd := op.VariableDefinitions.ForName(a.Value.Raw); vd != nil && vd.DefaultValue != nil {
+								qf.defaultOnlyIncDep = true
+							}
+						}
 					case gast.BooleanValue:
 						qf.includeDeprecatedArg[a.Value.Raw] = true
 					}
@@ -650,14 +668,16 @@ func analyseQuery(doc *gast.QueryDocument) queryFeatures {
 
 // classifyQuery attributes any wrong answer to a query with one of these shapes to the finding
 // about that shape.
-func (qf queryFeatures) finding() string {
+func (qf queryFeatures) finding(queryTypeName string) string {
 	switch {
-	case qf.rootTypename && qf.rootIntrospection:
-		return "C17-root-typename-next-to-introspection-field"
+	case qf.rootTypenameFirst && queryTypeName != "Query":
+		return "C17-root-typename-before-introspection-field-with-renamed-query-type"
 	case qf.nestedAlias:
 		return "C17-alias-on-nested-introspection-field"
-	case qf.varIncludeDeprecated:
-		return "C17-includeDeprecated-variable-ignored"
+	case qf.defaultOnlyIncDep:
+		return "C17-includeDeprecated-variable-default-ignored"
+	case qf.hasVariables && qf.anyIncludeDeprecated:
+		return "C17-includeDeprecated-lost-when-operation-has-variables"
 	case qf.deepRef:
 		return "C17-type-reference-not-expandable"
 	}
@@ -758,12 +778,16 @@ func evalEngineCase(c engineCase, o *pbt.Rec) (*verdictBuilder, pbt.Verdict) {
 		}
 		qf := analyseQuery(doc)
 		if !full {
-			labelQuery(qf, o)
+			labelQuery(qf, l.truth.Query.Name, o)
 		}
-		shapeFinding := qf.finding()
+		shapeFinding := qf.finding(l.truth.Query.Name)
+		errFinding := shapeFinding
+		if errFinding == "" && l.shape.clash[l.truth.Query.Name] {
+			errFinding = "C17-type-kind-wrong-when-directive-shares-name" // the query type cannot be resolved by name
+		}
 		resp, raw, xerr := eng.run(q.Query, q.Vars)
 		if xerr != nil {
-			v.add(shapeFinding, fmt.Sprintf("%s: engine fails on a valid introspection operation: %v (response %q)", tag, xerr, raw))
+			v.add(errFinding, fmt.Sprintf("%s: engine fails on a valid introspection operation: %v (response %q)", tag, xerr, raw))
 			continue
 		}
 		if errs, has := resp["errors"]; has {
@@ -800,7 +824,7 @@ func evalEngineCase(c engineCase, o *pbt.Rec) (*verdictBuilder, pbt.Verdict) {
 	return v, pbt.OK
 }
 
-func labelQuery(qf queryFeatures, o *pbt.Rec) {
+func labelQuery(qf queryFeatures, queryTypeName string, o *pbt.Rec) {
 	o.Label("query:partial")
 	for _, k := range []string{"true", "false", "absent"} {
 		if qf.includeDeprecatedArg[k] {
@@ -822,7 +846,10 @@ func labelQuery(qf queryFeatures, o *pbt.Rec) {
 	if qf.deepTypeRef >= 4 {
 		o.Label("query:ofType-depth>=4")
 	}
-	if id := qf.finding(); id != "" {
+	if qf.rootTypename && qf.rootIntrospection {
+		o.Label("query:root-typename-next-to-introspection")
+	}
+	if id := qf.finding(queryTypeName); id != "" {
 		o.Label("query-shape:" + id)
 	} else {
 		o.Label("query:strictly-checked")
